@@ -446,9 +446,11 @@ int derive_session_event(const void *frame, session_table *table, const uint8_t 
             if (station_count == 0) {
                 acking = true;
             } else {
-                const ethernet_header_t *stations = disc_header->stationList;
+                /* The station list is a packed array of 6-byte addresses (MS-LLTD 2.2.3.2),
+                 * not of Ethernet headers as the element type of stationList suggests. */
+                const uint8_t *stations = (const uint8_t *)disc_header->stationList;
                 for (uint16_t i = 0; i < station_count; i++) {
-                    if (mac_equal(stations[i].source.a, our_mac)) {
+                    if (mac_equal(stations + (size_t)i * sizeof(ethernet_address_t), our_mac)) {
                         acking = true;
                         break;
                     }
